@@ -508,6 +508,11 @@ package zygo
 //@ ghost bodyCompiled := ret1 == nil @after call buildSexpFun[0]
 //@ C05 assert registered-only-after-the-body-compiled @before call mapstore[*]: bodyCompiled
 //@ C05 assert nothing-is-unregistered @before call delete[*]: false
+// a range loop runs its body exactly once per element: the lowered loop gets the per-iteration
+// binding followed by the body's statements, except for the two-target plain-assignment header,
+// whose binding form carries the body itself
+//@ func lowerRangeFor
+//@ C06 assert body-is-in-the-loop-once @before call prattForList[0]: len(arg3) == 1 + ite(len(targets) == 2 && op == "=", 0, len(body))
 // mdef: every target slot is filled with a symbol before the value is compiled; the bind
 // instruction hands each one to BindSymbol, which dereferences it
 //@ func (*Generator).GenerateMultiDef
